@@ -16,7 +16,7 @@ from ..numpy_utils import (
     _numpy_cache_blocklist,
 )
 from ..utils import AbstractTypeResolver
-from .synced_collection import SyncedCollection, _sc_resolver
+from .synced_collection import SyncedCollection, _detach_synced, _sc_resolver
 
 # Identifies sequences, which are the base type for this class.
 _sequence_resolver = AbstractTypeResolver(
@@ -199,6 +199,7 @@ class SyncedList(SyncedCollection, MutableSequence):
         """
         data = _convert_numpy(data)
         if _sequence_resolver.get_type(data) == "SEQUENCE":
+            data = _detach_synced(data)
             with self._overwrite_context():
                 self._update(data)
         else:
